@@ -8,10 +8,10 @@ RULE_FMT = ("real ResponseOutputFormat (deserialised from a configuration docume
             "non-ASCII; u64/i64 extremes, arbitrary finite f64; mappings with paths (existing, missing, through "
             "non-objects, empty), Sum (empty, nested, mixed, overflowing), Optional; header names with commas, quotes, "
             "line breaks. I = initial/final file contents, row, returned response (canonical JSON text) + verdicts of "
-            "real readers (exact JSON reader: record parses back; csv crate: header and row have one field per column; "
-            "response keeps its content); M = the same from the Coq model bit for bit (ryu / Display float text is a "
-            "per-case oracle table); S = the implementation's output echoed when the Coq-side checks accept it, with "
-            "all verdicts required T. non-trivial = CSV row with >=2 columns where at least one mapping fails and one "
+            "real readers (exact JSON reader: record parses back; csv crate: header names = configured columns, field i = "
+            "value of the mapping under header name i; response keeps its content); M = the same from the Coq model bit for bit (ryu / Display float text is a "
+            "per-case oracle table); S = the implementation's output echoed with all verdicts required T, the JSON-lines "
+            "row additionally read back by the verified reader of Model/SinkJson.v. non-trivial = CSV row with >=2 columns where at least one mapping fails and one "
             "field is non-empty, or a JSON record with an escaped string or a float; distinct by (format, response)")
 RULE_SINK = ("a real ResponseSink::File built by ResponseOutputPolicy::build from a deserialised policy document "
              "(json lines, csv sorted/unsorted with a Sum and Optional columns), written by 1..16 OS threads (std "
@@ -46,7 +46,8 @@ def run(chk):
         "hook H1 in response_sink.rs (cfg compass_verif): events are recorded while the file lock is held",
         "ryu / Display decimal text of f64 (per-case oracle table; everything around it is modelled)",
         "serde deserialisation of the policy/format documents, ordered_hash_map iteration order (modelled, tied by the fmt stream)",
-        "readers used for the S verdicts: an exact JSON reader in the harness, the csv crate",
+        "readers used for the S verdicts: an exact JSON reader in the harness and the verified reader Model/SinkJson.v; "
+        "the csv crate (its field rules are modelled by SK.csv_read, for which the write/read round trip is proved)",
         "Rust harness harness/src/bin/c19.rs and this driver"]
     chk.assumptions = [
         "responses are JSON objects (CompassApp always produces objects; null works too): for another JSON value a "
